@@ -2,7 +2,7 @@
 ;; needs-type []primitives.MemberWeight
 ;; needs-type []interfaces.CommitteeMember
 ;; needs-type []primitives.MemberId
-;; provides nn SumA SumMA SWP InIds MemPred
+;; provides nn SumA SumMA SWP InIds MemPred SameSeq
 (define-fun nn ((x Int)) Int (ite (< x 0) 0 x))
 (define-fun-rec SumA ((a (Array Int Int)) (n Int)) Int
   (ite (<= n 0) 0 (+ (SumA a (- n 1)) (nn (select a (- n 1))))))
@@ -31,6 +31,9 @@
 ;; spec SW (Slice_BS Slice_S_interfaces_CommitteeMember Int) Int
 (define-fun SW ((ids Slice_BS) (s Slice_S_interfaces_CommitteeMember) (n Int)) Int
   (SWP (MemPred ids (el_Slice_S_interfaces_CommitteeMember s)) (el_Slice_S_interfaces_CommitteeMember s) n))
+; two id lists with the same length and, position by position, the same content
+(define-fun SameSeq ((x Slice_BS) (y Slice_BS)) Bool (and (= (len_Slice_BS x) (len_Slice_BS y))
+  (forall ((k Int)) (=> (and (<= 0 k) (< k (len_Slice_BS x))) (= (bs_c (select (el_Slice_BS x) k)) (bs_c (select (el_Slice_BS y) k)))))))
 ;; section quorum_axioms
 ;; provides SumA SumMA SWP
 ; lemma-axioms: each is proved by induction in specs/lemmas/quorum_sums.smt2 (re-checked on every C06 run)
@@ -95,6 +98,10 @@
 ; lemma-axiom (proved in specs/lemmas/quorum_sums.smt2): an empty id list selects no weight
 (assert (forall ((ids Slice_BS) (a (Array Int S_interfaces_CommitteeMember)) (n Int))
   (! (=> (<= (len_Slice_BS ids) 0) (= (SWP (MemPred ids a) a n) 0)) :pattern ((SWP (MemPred ids a) a n)))))
+; lemma-axiom (proved in specs/lemmas/quorum_sums.smt2, goals SWP.same-seq.*): the weight selected by an id list depends only
+; on its sequence of ids
+(assert (forall ((ids1 Slice_BS) (ids2 Slice_BS) (a (Array Int S_interfaces_CommitteeMember)) (n Int))
+  (! (=> (SameSeq ids1 ids2) (= (SWP (MemPred ids1 a) a n) (SWP (MemPred ids2 a) a n))) :pattern ((SWP (MemPred ids1 a) a n) (SWP (MemPred ids2 a) a n)))))
 ;; section leaderfn
 ; the value a leader-computing function value returns for a view (function values are opaque references)
 ;; spec LeaderFn (Int Int) BS
